@@ -372,18 +372,25 @@ Qed.
 (* ---------- numeric tail of _convert_verilog_str vs _convert_int ---------- *)
 Definition passed_ok (passed : option Z) (w : Z) : Prop := passed = None \/ passed = Some w.
 
+(* a bitwidth parameter that is absent or equal to the width in the string changes nothing --
+   whichever way the source tests for "given" (`if passed_bitwidth and ...` or
+   `if passed_bitwidth is not None and ...`) *)
+Lemma verilog_tail_passed_ok s neg num w passed : passed_ok passed w ->
+  verilog_tail s neg num w passed = verilog_tail s neg num w None.
+Proof.
+  intros [->| ->]; [reflexivity|]. unfold verilog_tail. rewrite Z.eqb_refl. cbn [negb].
+  rewrite ?andb_false_r. reflexivity.
+Qed.
+
 Lemma verilog_tail_agrees neg num w passed :
   0 <= num -> 1 <= w -> passed_ok passed w ->
   ~ (neg = true /\ num = 2 ^ (w - 1)) ->
   res_opt (verilog_tail false neg num w passed)
   = res_opt (convert_int (if neg then - num else num) (Some w) false).
 Proof.
-  intros Hn Hw Hp Hguard. rewrite convert_int_some. unfold verilog_tail, representableb.
-  replace (1 <=? w) with true by lia. replace (w <? 1) with false by lia. cbn [andb].
-  assert (Hpass : (match passed with None => false | Some z__ => negb (z__ =? 0) end)
-                  && negb (match passed with None => false | Some z__ => z__ =? w end) = false).
-  { destruct Hp as [->| ->]; [reflexivity|]. rewrite Z.eqb_refl. apply andb_false_r. }
-  rewrite Hpass.
+  intros Hn Hw Hp Hguard. rewrite (verilog_tail_passed_ok _ _ _ _ _ Hp).
+  rewrite convert_int_some. unfold verilog_tail, representableb.
+  replace (1 <=? w) with true by lia. replace (w <? 1) with false by lia. cbn [andb negb].
   assert (Hpw : 0 < 2 ^ (w - 1)) by (apply pow2_pos; lia). pose proof (pow2_half w Hw) as Hh.
   pose proof (shiftr_0 num (w - 1) ltac:(lia)) as S1.
   pose proof (shiftr_0 num w ltac:(lia)) as S0.
@@ -411,10 +418,10 @@ Proof.
 Qed.
 
 Lemma verilog_tail_width_mismatch neg num w p :
-  p <> 0 -> p <> w -> is_ok (verilog_tail false neg num w (Some p)) = false.
+  p <> w -> is_ok (verilog_tail false neg num w (Some p)) = false.
 Proof.
-  intros H0 Hw. unfold verilog_tail.
-  replace (negb (p =? 0)) with true by lia. replace (p =? w) with false by lia. cbn [andb negb].
+  intros Hw. unfold verilog_tail.
+  replace (p =? w) with false by lia. cbn [andb negb].
   destruct (w <? 1); [reflexivity|].
   destruct (neg && negb (num =? 0)); [destruct (negb (Z.shiftr num (w - 1) =? 0))|]; reflexivity.
 Qed.
